@@ -8,6 +8,7 @@ import ast
 import asyncio
 import inspect
 import itertools
+import json
 
 from .. import model
 from ..sexp import Sym
@@ -365,3 +366,127 @@ def _freeze_client(client):
     from . import _clients
 
     return _clients._freeze(vars(client))
+
+
+# ------------------------------------------------------------------------------------------------
+# The JSON-TEXT dimension of a frame.  The model classifies a frame by the JSON VALUE it carries; which
+# texts / byte strings are a JSON value, and which value, is Python's json.loads — the function the client
+# is specified to use (trusted base).  Here frames are given as raw str / bytes; the reference decides
+# value / not-JSON, and the oracle is: a `next` frame the reference accepts is yielded and the stream goes
+# on; a frame the reference rejects raises the invalid-message error carrying the frame.
+def _deep(n):
+    v = {"leaf": n}
+    for i in range(n - 1):
+        v = [v] if i % 2 == 0 else {"r": v}
+    return v
+
+
+def wire_cases():
+    J = json.dumps
+    nx = lambda data_text: '{"type": "next", "id": "1", "payload": {"data": ' + data_text + '}}'
+    cases = []
+    for d in (50, 150, 250, 400):
+        cases.append((f"deep-{d}", nx(J({"thread": _deep(d)}))))
+    cases.append(("deep-250-bytes", nx(J({"thread": _deep(250)})).encode()))
+    cases += [
+        ("lone-surrogate-escape", nx('{"s": "\\ud800 lone"}')),
+        ("surrogate-pair-escape", nx('{"s": "\\ud83d\\ude00"}')),
+        ("non-bmp-raw", nx('{"s": "\U0001F600 é"}')),
+        ("nul-escape", nx('{"s": "a\\u0000b"}')),
+        ("long-string-2MB", nx('{"s": "' + "x" * (2 * 1024 * 1024) + '"}')),
+        ("many-keys", nx(J({f"k{i}": i for i in range(20000)}))),
+        ("float-overflow-1e400", nx('{"x": 1e400, "y": -1E+400}')),
+        ("negative-zero", nx('{"x": -0.0, "y": -0}')),
+        ("int-2^63", nx('{"x": 9223372036854775808, "y": -9223372036854775809, "z": ' + "9" * 300 + '}')),
+        ("float-underflow", nx('{"x": 1E-400, "y": 1.7976931348623157e308}')),
+        ("NaN-Infinity-literals", nx('{"x": NaN, "y": Infinity, "z": -Infinity}')),
+        ("whitespace-around", " \n\t" + nx('{"a": 1}') + " \r\n"),
+        ("duplicate-payload-key", '{"type": "next", "payload": {"data": {"a": 1}}, "payload": {"data": {"a": 2}}}'),
+        ("bytes-utf8", nx('{"s": "é中"}').encode("utf-8")),
+        ("bytes-utf8-bom", b"\xef\xbb\xbf" + nx('{"a": 1}').encode("utf-8")),
+        ("bytes-utf16-bom", nx('{"s": "é"}').encode("utf-16")),
+        ("bytes-utf16-le", nx('{"a": 1}').encode("utf-16-le")),
+        ("bytes-utf32", nx('{"a": 1}').encode("utf-32")),
+        ("bytearray-utf8", bytearray(nx('{"a": 1}').encode("utf-8"))),
+        # not JSON for the reference
+        ("str-with-bom", "﻿" + nx('{"a": 1}')),
+        ("trailing-garbage", nx('{"a": 1}') + " x"),
+        ("single-quotes", "{'type': 'next'}"),
+        ("truncated-deep", nx(J({"thread": _deep(150)}))[:-40]),
+        ("empty-text", ""),
+        ("empty-bytes", b""),
+        ("bytes-invalid-utf8", b'{"type": "next", "payload": {"data": {"s": "\xff\xfe\xfd"}}}'),
+    ]
+    return cases
+
+
+def wire_dimension(run, I):
+    from .c13 import CFG_BASE, OPNAME, QUERY
+
+    marker = {"type": "next", "id": "1", "payload": {"data": {"marker": True}}}
+    ack = {"type": "connection_ack"}
+    n = bad = 0
+    dist = {}
+    for name, raw in wire_cases():
+        try:
+            ref = ("value", json.loads(raw))
+        except json.JSONDecodeError:
+            ref = ("not-json", None)
+        except UnicodeDecodeError:
+            ref = ("undecodable", None)
+        for position in ("stream", "ack-payload"):
+            if position == "ack-payload":
+                if ref[0] != "value":
+                    continue
+                # the same exotic value inside the payload of the ack
+                if isinstance(raw, (bytes, bytearray)):
+                    continue
+                body = raw.strip()
+                x = '{"type": "connection_ack", "payload": ' + body + '}'
+                frames = [("raw", x), ("j", marker), ("j", {"type": "complete"})]
+                want_y, want_fin = [marker["payload"]["data"]], "finished"
+            else:
+                frames = [("j", ack), ("raw", raw), ("j", marker), ("j", {"type": "complete"})]
+                if ref[0] == "value":
+                    want_y, want_fin = [ref[1]["payload"]["data"], marker["payload"]["data"]], "finished"
+                else:
+                    want_y, want_fin = [], "invalid"
+            for v in I.VARIANTS:
+                n += 1
+                run.count()
+                tr = I.run_fake(v, CFG_BASE, QUERY, OPNAME, None, frames)
+                obs = I.project(tr)
+                fin = tr["fin"] if isinstance(tr["fin"], str) else tr["fin"][0]
+                problems = []
+                if repr(obs["yielded"]) != repr(want_y):
+                    problems.append("yielded %s, the reference (json.loads) says %s" % (_short(obs["yielded"]), _short(want_y)))
+                if fin != want_fin:
+                    problems.append(f"outcome {tr['fin'] if isinstance(tr['fin'], str) else tr['fin'][:2]} instead of {want_fin}")
+                elif fin == "invalid" and tr["fin"][1] != ["raw", raw]:
+                    problems.append("the invalid-message error does not carry the frame")
+                dist[f"{ref[0]}"] = dist.get(ref[0], 0) + 1
+                if problems:
+                    bad += 1
+                    rep = {"case": name, "variant": v, "position": position, "frame_repr": _short(raw, 400),
+                           "frame_type": type(raw).__name__, "frame_length": len(raw),
+                           "reference": ref[0], "observed_outcome": tr["fin"] if isinstance(tr["fin"], str) else tr["fin"][:2]}
+                    what = "wire: frame %s (%s, %d %s) at position %s, %s client: %s" % (
+                        name, type(raw).__name__, len(raw), "bytes" if not isinstance(raw, str) else "chars", position, v,
+                        "; ".join(problems))
+                    if ref[0] == "undecodable":
+                        run.finding("C13-undecodable-binary", what, rep)
+                    elif bad <= 4:
+                        run.violation(what, rep, found_input=True)
+    for k, c in dist.items():
+        run.dist("wire_reference", k, c)
+    run.extra["wire_dimension"] = {"cases": len(wire_cases()), "runs": n, "deviating": bad,
+                                   "what": "frames as raw text / bytes: nesting 50..400 containers deep, lone surrogate escapes, "
+                                           "2 MB strings, 20000 keys, 1e400 / -0.0 / 2^63 / NaN literals, duplicate keys, binary "
+                                           "frames (utf-8, BOM, utf-16, utf-32, bytearray), and non-JSON texts; reference = "
+                                           "json.loads (trusted base); accepted next frames must be yielded and the stream go on, "
+                                           "rejected ones raise the invalid-message error carrying the frame"}
+
+
+def _short(v, n=160):
+    r = repr(v)
+    return r if len(r) <= n else r[: n // 2] + " ... " + r[-n // 2:]
